@@ -83,8 +83,54 @@ def floor_at_least_memory_min(ctx):
               "size of an immediate-backoff reclaim - can go below memory.min" % (bad[0][1][:80] if bad else ""))
 
 
+def configured_paths_resolved_every_time(ctx):
+    """'Only cgroups matched by its cgroup argument': OomdContext::addToCacheAndGet(set) - the one place a plugin's configured paths become
+    contexts - hands the per-path lookup only paths that resolveWildcard() returned in THIS call.  The per-path lookup prefers the cached
+    context, which is addressed by directory fd: the glob is the only thing that re-checks, tick by tick, that the configured PATH still
+    names a cgroup (a renamed cgroup keeps its fd and inode)."""
+    P, cg = ctx.prog, ctx.cg
+    sets = [f for f in P.fn("Oomd::OomdContext::addToCacheAndGet") if f.params and "unordered_set" in f.params[0]["type"]]
+    if len(sets) != 1:
+        ctx.broken("configured-paths-resolved-every-time", "anchor", "-", "expected one OomdContext::addToCacheAndGet overload taking the configured set")
+        return
+    f = ctx.use(sets[0])
+    X = Expander(P, f)
+    inner = [i for i in f.calls("OomdContext::addToCacheAndGet") if len(f.nodes[i].get("args", [])) == 1]
+    ctx.counters["per_path_lookups"] = len(inner)
+    ctx.floor("per_path_lookups", 1, "per-path lookups in the set overload")
+    for i in inner:
+        prov = X(f.nodes[i]["args"][0])
+        if "resolveWildcard()" in prov:
+            ctx.ok("configured-paths-resolved-every-time@%d" % f.nodes[i].get("line", 0), "provenance (Expander)", f.loc(i), "the looked-up path is " + prov[:80])
+            continue
+        m = re.match(r"^elem\((?:var:)?(\w+)\)$", prov)
+        if not m:
+            ctx.violation("configured-paths-resolved-every-time@%d" % f.nodes[i].get("line", 0), "provenance (Expander)", f.loc(i),
+                          "OomdContext::addToCacheAndGet(set) looks up '%s', which is not an element of this call's resolveWildcard() results: a configured path "
+                          "that no longer names a cgroup keeps yielding its cached (fd-addressed) context" % prov[:80])
+            continue
+        cont = m.group(1)
+        fills = [c for c in f.calls("insert", "emplace", "emplace_back", "push_back", "merge") if "recv" in f.nodes[c] and f.text(f.nodes[c]["recv"]) == cont]
+        init, v = local_init(f, cont, must=False)
+        bad = []
+        if v is not None and init is not None and init >= 0 and f.nodes[f.strip(init)].get("args"):
+            bad.append((init, X(init)))
+        for c in fills:
+            provs = [X(a) for a in f.nodes[c].get("args", [])]
+            if not provs or not all("resolveWildcard()" in p_ for p_ in provs):
+                bad.append((c, ", ".join(provs)))
+        ctx.counters["resolved_set_fills"] = len(fills)
+        ctx.floor("resolved_set_fills", 1, "fills of the resolved-path set")
+        ctx.check(not bad, "configured-paths-resolved-every-time@%d" % f.nodes[i].get("line", 0), "provenance (Expander)", f.loc(bad[0][0] if bad else i),
+                  "every path in %s comes from resolveWildcard() of a configured path" % cont,
+                  "OomdContext::addToCacheAndGet(set) puts %s into %s without passing it through resolveWildcard(): the per-path lookup then returns the cached, "
+                  "fd-addressed context although the configured path may no longer name that cgroup (renamed or replaced) - a plugin keeps acting on a cgroup "
+                  "its argument no longer matches" % (bad[0][1][:80] if bad else "", cont))
+
+
 def run(ctx):
     floor_at_least_memory_min(ctx)
+    configured_paths_resolved_every_time(ctx)
     from .C15 import every_context_refreshed
     every_context_refreshed(ctx)
     # locals / parameters the rules below refer to by name (a rename makes the analysis 'broken', never a violation)
